@@ -71,6 +71,11 @@ fn upto(n) { var v = []; var i = 0; while i < n { v.push(i); i = i + 1; } return
 # ----------------------------------------------------------------------------------------------
 # numbers and arguments
 
+# ties between the function bodies translated from the Rust source on every run (Gen/Fns.lean) and the hand-written models
+THEOREM_MODULES.append("Yarel.Props.FnsTie.Index")
+REQUIRED_THEOREMS += ['validate_integer_tie', 'try_as_bounded_index_tie', 'make_bounded_range_tie']
+
+
 def bits(x):
     return "%016x" % struct.unpack(">Q", struct.pack(">d", float(x)))[0]
 
